@@ -164,6 +164,30 @@ def check(ctx, run):
             if got != want and not why:
                 why = "free/used/warnings are %s, expected %s" % (got, want)
             run.ob("R2", "release block %s from used=%s" % (target if target in used else "(foreign)", used), rl.site, got == want, witness={"free, used, warnings": got}, what=why)
+    # buffers above the largest class: the same move on the non-cached list
+    rn = prog.fn(CA + "::releaseNonCachedMemory")
+    run.analysed(rn)
+    for blocks in ([], [1], [1, 2], [1, 2, 3]):
+        for target in blocks + [9]:
+            env = blocks_env({"nonCachedAllocations_": blocks})
+            env[rn.params[0]["name"]] = 1000 + target
+            env[rn.params[1]["name"]] = 300
+            env["hasWarnedAboutDeallocations"] = 0
+            ev = Evaluator(prog, rn, env=env)
+            ev.heap_mode = True
+            warned, destroyed = [], []
+            ev.calls[CA + "::printDeallocatingUnknownMemory"] = lambda m, warned=warned: (warned.append(m), 0)[1]
+            ev.calls[CA + "::destroySimpleStringMemoryBlock"] = lambda b, sz, destroyed=destroyed: (destroyed.append((b, sz)), 0)[1]
+            try:
+                ev.run_blocks(rn.entry, max_steps=600)
+                got = (chain_of(ev.env, "nonCachedAllocations_"), destroyed, len(warned))
+                why = ""
+            except Unknown as u:
+                got, why = "unknown", str(u)
+            want = ([b for b in blocks if b != target], [(target, 300)], 0) if target in blocks else (blocks, [], 1)
+            if got != want and not why:
+                why = "list/destroyed/warnings are %s, expected %s" % (got, want)
+            run.ob("R2", "release large buffer %s from non-cached=%s" % (target if target in blocks else "(foreign)", blocks), rn.site, got == want, witness={"list, destroyed, warnings": str(got)}, what=why)
     for flag in (0, 1):
         ev = Evaluator(prog, pu, env={"hasWarnedAboutDeallocations": flag, pu.params[0]["name"]: 1234})
         ev.pass_object = False
